@@ -32,8 +32,10 @@ theorem C02_v2_track_decode_agrees (bs : Bytes) : decodeTrack bs = ofSpec (track
   rw [decodeTrack_eq, liftDec_eq_ofSpec]
 theorem C02_v2_beat_decode_agrees (bs : Bytes) : decodeBeat bs = ofSpec (beat.dec bs) := by
   rw [decodeBeat_eq, liftDec_eq_ofSpec]
-theorem C02_v2_ovw_decode_agrees (bs : Bytes) : decodeOvw bs = ofSpec (ovw.dec bs) := by
-  rw [decodeOvw_eq, liftDec_eq_ofSpec]
+/-- `hlen`: the payload is a C++ byte vector (fewer than 2^63 bytes, `vector::max_size()`); needed because the
+length test `3 * (n + 1)` is `int64_t` arithmetic in the Model (`ub signed_overflow` beyond the range). -/
+theorem C02_v2_ovw_decode_agrees (bs : Bytes) (hlen : bs.length < maxCount) : decodeOvw bs = ofSpec (ovw.dec bs) := by
+  rw [decodeOvw_eq bs hlen, liftDec_eq_ofSpec]
 theorem C02_v2_cues_decode_agrees (bs : Bytes) : decodeCues bs = ofSpec (cues.dec bs) := by
   rw [decodeCues_eq, liftDec_eq_ofSpec]
 theorem C02_v2_loops_decode_agrees (bs : Bytes) : decodeLoops bs = ofSpec (loops.dec bs) := by
@@ -95,10 +97,12 @@ theorem ofOpt_eq_ofSpec {α} (o : Option α) : ofOpt o = ofSpec o := by cases o 
 
 theorem C02_v1_track_decode_agrees (bs : Bytes) : Impl.V1.decodeTrack bs = ofSpec (V1.decodeTrack bs) := by
   rw [V1Proofs.decodeTrack_eq, ofOpt_eq_ofSpec]
-theorem C02_v1_ovw_decode_agrees (bs : Bytes) : Impl.V1.decodeOvw bs = ofSpec (V1.decodeOvw bs) := by
-  rw [V1Proofs.decodeOvw_eq, ofOpt_eq_ofSpec]
-theorem C02_v1_hires_decode_agrees (bs : Bytes) : Impl.V1.decodeHires bs = ofSpec (V1.decodeHires bs) := by
-  rw [V1Proofs.decodeHires_eq, ofOpt_eq_ofSpec]
+theorem C02_v1_ovw_decode_agrees (bs : Bytes) (hlen : bs.length < maxCount) :
+    Impl.V1.decodeOvw bs = ofSpec (V1.decodeOvw bs) := by
+  rw [V1Proofs.decodeOvw_eq bs hlen, ofOpt_eq_ofSpec]
+theorem C02_v1_hires_decode_agrees (bs : Bytes) (hlen : bs.length < maxCount) :
+    Impl.V1.decodeHires bs = ofSpec (V1.decodeHires bs) := by
+  rw [V1Proofs.decodeHires_eq bs hlen, ofOpt_eq_ofSpec]
 theorem C02_v1_cues_decode_agrees (bs : Bytes) : Impl.V1.decodeCues bs = ofSpec (V1.decodeCues bs) := by
   rw [V1Proofs.decodeCues_eq, ofOpt_eq_ofSpec]
 theorem C02_v1_loops_decode_agrees (bs : Bytes) : Impl.V1.decodeLoops bs = ofSpec (V1.decodeLoops bs) := by
